@@ -834,6 +834,60 @@ fn lits(args: &util::Args) {
     println!("lits={}", cases.len());
 }
 
+// ------------------------------------------------------------------ arbitrary programs: string constants of `main`
+
+/// `gv c11 strs --file F`: each line `id<TAB>escaped source`; compiles the program with the whole
+/// pipeline and prints the String `EPrim`s of Core `main` (code points, sorted) or the diagnostic.
+/// Sources and expectations are made by tools/props/c11.py (the oracle is computed there, from the text).
+fn strs(args: &util::Args) {
+    util::quiet_panics();
+    let file = args.rest.iter().position(|x| x == "--file").map(|i| args.rest[i + 1].clone()).expect("--file");
+    let text = std::fs::read_to_string(&file).expect("read programs");
+    let dir = util::scratch_dir("c11strs");
+    let mut out = String::new();
+    let mut n = 0usize;
+    for line in text.lines() {
+        let mut it = line.splitn(2, '\t');
+        let (Some(id), Some(esc)) = (it.next(), it.next()) else { continue };
+        let src = unesc_line(esc);
+        let observed = match util::compile_text(&dir.join(id), &src) {
+            Outcome::Ok(comp) => {
+                let mut prims: Vec<String> =
+                    core_prims(&comp).into_iter().filter_map(|p| p.strip_prefix("String:").map(|x| x.to_string())).collect();
+                prims.sort();
+                format!("OK\t{}", prims.join("|"))
+            }
+            Outcome::Err(stage, msgs) => format!("ERR\t{}:{}", stage, esc_line(&msgs.first().cloned().unwrap_or_default())),
+            Outcome::Panic(m) => format!("PANIC\t{}", esc_line(&m)),
+        };
+        let _ = writeln!(out, "{}\tSTRS\t{}", id, observed);
+        let _ = std::fs::remove_dir_all(dir.join(id));
+        n += 1;
+    }
+    std::fs::write(args.out.join("c11.strs.tsv"), out).expect("write strs");
+    let _ = std::fs::remove_dir_all(&dir);
+    println!("strs={}", n);
+}
+
+fn unesc_line(s: &str) -> String {
+    let mut out = String::new();
+    let mut it = s.chars();
+    while let Some(c) = it.next() {
+        if c == '\\' {
+            match it.next() {
+                Some('n') => out.push('\n'),
+                Some('t') => out.push('\t'),
+                Some('r') => out.push('\r'),
+                Some(o) => out.push(o),
+                None => {}
+            }
+        } else {
+            out.push(c);
+        }
+    }
+    out
+}
+
 // ------------------------------------------------------------------ golden files of the corpus
 
 fn goldens(args: &util::Args) {
@@ -890,6 +944,7 @@ pub fn main(args: &util::Args) {
         Some("gen") => gen_trees(args),
         Some("parse") => parse_cmd(args),
         Some("lits") => lits(args),
+        Some("strs") => strs(args),
         Some("goldens") => goldens(args),
         _ => {
             eprintln!("usage: gv c11 <gen|parse --file F|lits|goldens>");
